@@ -629,7 +629,7 @@ def packages(draw, max_mods: int = 6, max_stmts: int = 6, allow_join: bool = Fal
         def pick_name():
             if self_pool and draw(st.integers(0, 3)) == 3:
                 return draw(st.sampled_from(self_pool))
-            if extra_names and draw(st.integers(0, 5)) == 5:
+            if extra_names and draw(st.integers(0, 3)) == 3:
                 return draw(st.sampled_from(extra_names))  # e.g. `annotations`: `from .m import x as annotations`
             return draw(st.sampled_from(OBJ_NAMES))
 
@@ -713,6 +713,16 @@ def packages(draw, max_mods: int = 6, max_stmts: int = 6, allow_join: bool = Fal
         for _ in range(n_stmts):
             # weights: cumulative thresholds for (local definition, wildcard, from-import, from-import of a sub-module,
             # import a.b [as c])
+            if "$TOP" in extra_names and sources and body:
+                last = body[-1]
+                as_top = (last["t"] == "import" and last.get("as") == "$TOP") or (
+                    last["t"] == "from" and last["names"] != "*" and any(a_ == "$TOP" for _, a_ in last["names"])
+                )
+                if as_top and draw(st.booleans()):
+                    # the name of the top-level package was just bound by an aliased / from import: re-bind it with a
+                    # plain `import <top>.m`
+                    body.append({"t": "import", "mod": draw(st.sampled_from(sources)), "as": None})
+                    continue
             roll = draw(st.integers(0, weights[4] - 1)) if sources else 0
             if weights[0] <= roll < weights[1]:  # wildcard
                 wsrc = wildcard_sources()
